@@ -23,6 +23,9 @@ def check(repo, rep, tier):
     rc.r_leaf_loop(m, rep, 'R9.1')
     rc.r_best(m, rep, 'R9.1')
     rc.r_heads(m, rep, 'R9.2')
+    rc.r_items_immutable(m, rep, 'R9.2')
+    rc.r_chart(m, rep, 'R9.2')
+    rp.r_config_plumbing(repo, rep, 'R9.1')
     rc.r_backpointers(m, rep, 'R9.2')
     for s in m.by_kind.get('goal', []):
         from ..parse_model import LIT
